@@ -45,10 +45,72 @@ TARGETS = [("x86_64", c06.T64, None), ("arm", ["i32", "u32"], ["i32", "u32"]), (
            ("arm:thumb", ["i32", "u32"], ["i32", "u32"]), ("riscv:rvc", T32, IT32)]
 
 
+LOW_PF = "int pf(int p0) {\n  return p0 + 1;\n}\n"
+ASM_SOURCES = {"arm": ["section code\n ldr r0, =foo\n ldr r1, =bar\n", "section code\n ldr r2, =baz\n"]}
+
+
+def high_pf(rng):
+    """`pf` again, but with many values live across calls (they need callee-saved registers)."""
+    k = rng.randrange(5, 9)
+    lines = ["extern int ext_f(int);", "int pf(int p0) {"]
+    lines += ["  int v%d = ext_f(p0 + %d);" % (i, i) for i in range(k)]
+    lines += ["  return %s;" % " + ".join("v%d" % i for i in range(k)), "}"]
+    return "\n".join(lines) + "\n"
+
+
+def stack_params_c(rng):
+    """6..8 int parameters; the stack-passed ones (on arm: virtual registers without a defining instruction)
+    are first used pairwise in ONE instruction, and enough values stay live (across a call) for the order in
+    which the allocator meets them to decide their registers."""
+    n = rng.randrange(6, 9)
+    ps = ["p%d" % i for i in range(n)]
+    tail = ps[4:]
+    rng.shuffle(tail)
+    ops = ["+", "^", "-", "|", "&"]
+    lines = ["extern int ext_f(int);", "int pf(%s) {" % ", ".join("int " + p for p in ps)]
+    vs = []
+    for k in range(0, len(tail) - 1, 2):
+        lines.append("  int x%d = %s %s %s;" % (k, tail[k], rng.choice(ops), tail[k + 1]))
+        vs.append("x%d" % k)
+    if len(tail) % 2:
+        lines.append("  int x9 = %s %s %s;" % (tail[-1], rng.choice(ops), tail[0]))
+        vs.append("x9")
+    lines.append("  int z = ext_f(p0 %s %s);" % (rng.choice(ops), vs[0]))
+    lines.append("  int w = (%s * %s) + z;" % (vs[0], vs[-1]))
+    lines.append("  int u = (%s - %s) ^ (%s + %s);" % (tail[0], tail[-1], tail[1], tail[-2]))
+    lines.append("  return w + u + p1 + p2 + p3 + %s;" % " + ".join(vs))
+    lines.append("}")
+    return "\n".join(lines) + "\n"
+
+
 def jobs_for(ctx, nprog, levels, ntargets):
     rng = ctx.rng
     jobs = []
+
+    def add(kind, seed, march, level, src, jk):
+        dig = hashlib.sha256(json.dumps(src).encode()).hexdigest()[:16]
+        jobs.append({"key": "C30:%s%d:%s:O%s:src=%s" % (kind, seed, march, level, dig), "kind": jk, "src": src,
+                     "march": march, "level": level})
+
     for march, ctypes, irtypes in TARGETS[:ntargets]:
+        # (a) two units that define a function of the SAME NAME with different register needs: whatever a
+        #     back-end remembers per function name in its (process-wide, cached) arch object goes stale;
+        # (b) functions with 5..8 parameters (stack-passed parameters: virtual registers without a defining
+        #     instruction); (c) assembly sources with literal-pool pseudo instructions
+        for level in levels:
+            add("lowpf", 0, march, level, LOW_PF, "c")
+            seed = rng.randrange(1 << 30)
+            add("highpf", seed, march, level, high_pf(random.Random(seed)), "c")
+            for _ in range(4 if nprog > 3 else 2):
+                seed = rng.randrange(1 << 30)
+                add("stackparams", seed, march, level, stack_params_c(random.Random(seed)), "c")
+            for _ in range(2 if nprog > 3 else 1):
+                seed = rng.randrange(1 << 30)
+                r2 = random.Random(seed)
+                add("manyparams", seed, march, level,
+                    c06.pressure_c(r2, ["i32", "u32"], nparams=r2.randrange(5, 9)), "c")
+        for n, src in enumerate(ASM_SOURCES.get(march, [])):
+            add("asm", n, march, "-", src, "asm")
         for k in range(nprog):
             seed = rng.randrange(1 << 30)
             kind = ("press", "abs", "ir")[k % 3]
@@ -67,11 +129,11 @@ def jobs_for(ctx, nprog, levels, ntargets):
     return jobs
 
 
-def run_driver(ctx, jobs, hashseed, tag):
+def run_driver(ctx, jobs, hashseed, tag, churn=None):
     jf = os.path.join(ctx.workdir, "jobs_%s.json" % tag)
     of = os.path.join(ctx.workdir, "out_%s.json" % tag)
     with open(jf, "w") as f:
-        json.dump({"jobs": jobs, "steps": True}, f)
+        json.dump({"jobs": jobs, "steps": True, "churn": churn}, f)
     env = dict(os.environ)
     env["PYTHONHASHSEED"] = str(hashseed)
     env["PYTHONDONTWRITEBYTECODE"] = "1"
@@ -100,8 +162,11 @@ class Engine:
         ctx.rule("M: Determinism_MC — for every compiler Comp: Keys x Envs -> Digests (2x2x2) and every history up to "
                  "MaxLen events the incremental invariant = one digest per key, = environment independence once all pairs "
                  "were compiled. T: generated C/IR programs compiled for x86_64, arm, riscv (thorough: + thumb, rvc) at "
-                 "-O0/-O2 in fresh processes under PYTHONHASHSEED in {0,1,2,31337,(4242)}, in forward and reversed order "
-                 "and alone in a process; artefacts per compile: saved object file, partially linked image, one allocator "
+                 "-O0/-O2 in fresh processes under PYTHONHASHSEED in {0,1,2,31337,(4242)}, each after a differently "
+                 "seeded heap churn (allocation/free of assorted objects, so that object ADDRESS order differs), in "
+                 "forward and reversed order and alone in a process; per target also two units defining the same "
+                 "function name with low / high callee-saved register need, functions with 5..8 parameters, and (arm) "
+                 "assembly sources with literal-pool pseudo instructions; artefacts per compile: saved object file, partially linked image, one allocator "
                  "step trace per function; TLC checks AtMostOneDigestPerKey over the whole history; distinct = distinct "
                  "(program, target, level, artefact) keys observed in at least two environments")
         ctx.assume("a sha256 digest stands for the bytes it was computed from")
@@ -119,12 +184,15 @@ class Engine:
         runs = [("seed%s" % s, s, jobs) for s in seeds]
         runs.append(("seed0-reversed", 0, list(reversed(jobs))))
         runs.append(("seed1-reversed", 1, list(reversed(jobs))))
-        for k, j in enumerate(jobs[:: max(1, len(jobs) // (8 if thorough else 3))]):
+        alone = jobs[:: max(1, len(jobs) // (8 if thorough else 3))]
+        alone += [j for j in jobs if ":highpf" in j["key"] or ":lowpf" in j["key"] or j["key"].startswith("C30:asm")]
+        for k, j in enumerate(alone):
             runs.append(("alone%d-seed%d" % (k, 7 + k), 7 + k, [j]))
         results = []
-        width = 4
+        width = 6
         for part in core.chunks(runs, width):   # a few processes at a time
-            procs = [(tag, s, run_driver(ctx, js, s, tag)) for tag, s, js in part]
+            procs = [(tag, s, run_driver(ctx, js, s, tag, churn=ctx.seed % 100000 + 17 * len(results) + 31 * k))
+                     for k, (tag, s, js) in enumerate(part)]
             results += collect(procs)
         # ---- the history ----
         history, detail = [], {}
